@@ -647,7 +647,11 @@ def generate(unit, template_text, repo_root, units_dir=None):
     for ent in parsed:
         if ent[0] == "text":
             _, ln, line = ent
-            g.emit(line, kind="spec", tline=ln, props=list(cur_props))
+            mtag = re.search(r"//\s*\[([A-Z0-9,]+)\]\s*$", line)
+            if mtag:
+                g.emit(line, kind="spec", tline=ln, props=[x for x in mtag.group(1).split(",") if x], linetag=True)
+            else:
+                g.emit(line, kind="spec", tline=ln, props=list(cur_props))
             continue
         if ent[0] == "props":
             cur_props = ent[2]
@@ -796,6 +800,11 @@ def generate(unit, template_text, repo_root, units_dir=None):
         ckind = None
         counts = {}
         for (tl, text) in blk.contract:
+            cprops = props
+            mt = re.match(r"^(\s*)\[([A-Z0-9,]+)\]\s*(.*)$", text)
+            if mt:
+                cprops = [x for x in mt.group(2).split(",") if x]
+                text = mt.group(1) + mt.group(3)
             m = re.match(r"^\s*(requires|ensures|decreases|recommends|opens_invariants|no_unwind)\b", text)
             if m:
                 ckind = m.group(1)
@@ -804,8 +813,8 @@ def generate(unit, template_text, repo_root, units_dir=None):
             if is_clause and not text.strip().startswith("//"):
                 counts[ckind] = counts.get(ckind, 0) + 1
                 cid = "%s#%d" % (ckind, counts[ckind])
-                clauses.append(dict(id=cid, text=text.strip(), tline=tl))
-            g.emit("    " + text, kind=ckind or "contract", fn=fid, ord=cid, tline=tl, props=props)
+                clauses.append(dict(id=cid, text=text.strip(), tline=tl, props=cprops))
+            g.emit("    " + text, kind=ckind or "contract", fn=fid, ord=cid, tline=tl, props=cprops)
         # body lines: walk the tokens; markers become directive lines; every line keeps the source
         # line of its first original token (line numbers are exact when rewrites keep the line count)
         total_nl = stext.count("\n")
@@ -830,6 +839,11 @@ def generate(unit, template_text, repo_root, units_dir=None):
             c = 0
             lk = lk0
             for (tl, text) in lst:
+                cprops = props
+                mt = re.match(r"^(\s*)\[([A-Z0-9,]+)\]\s*(.*)$", text)
+                if mt:
+                    cprops = [x for x in mt.group(2).split(",") if x]
+                    text = mt.group(1) + mt.group(3)
                 if kind == "loopinv":
                     mm = re.match(r"^\s*(invariant_except_break|invariant|ensures|decreases)\b", text)
                     if mm:
@@ -839,8 +853,8 @@ def generate(unit, template_text, repo_root, units_dir=None):
                         continue
                     c += 1
                     cid = "loop%d/%s#%d" % (k, lk, c)
-                    clauses.append(dict(id=cid, text=text.strip(), tline=tl))
-                    out_lines.append(("        " + text, dict(kind="loopinv", fn=fid, ord=cid, tline=tl, props=props)))
+                    clauses.append(dict(id=cid, text=text.strip(), tline=tl, props=cprops))
+                    out_lines.append(("        " + text, dict(kind="loopinv", fn=fid, ord=cid, tline=tl, props=cprops)))
                 else:
                     out_lines.append((text, dict(kind="hint", fn=fid, tline=tl, props=props)))
 
@@ -901,7 +915,10 @@ def generate(unit, template_text, repo_root, units_dir=None):
             for (l, info) in out_lines:
                 g.lines.append(l)
                 g.map.append(info)
-        g.fns[fid] = dict(props=props, first_line=fn_first, last_line=len(g.lines), clauses=clauses,
+        allp = sorted(set(props) | set(x for c in clauses for x in c.get("props", []))
+                      | set(x for x in str(opts.get("inherits", "")).split(",") if x))
+        g.fns[fid] = dict(props=props, all_props=allp, deps=[x for x in str(opts.get("deps", "")).split(",") if x],
+                          inherits=[x for x in str(opts.get("inherits", "")).split(",") if x], first_line=fn_first, last_line=len(g.lines), clauses=clauses,
                           external_body=bool(opts.get("external_body")), file=rel, path=" :: ".join(scopes),
                           src_lines=[start_line, end_line])
         rec["fn"] = fid
